@@ -31,6 +31,22 @@ import (
 //       union of the per-entity sequential results; every snapshot is, per entity, one of the prefix states
 //       its interval allows; the recorded history is linearizable per (entity, actor, name) against a
 //       register model (porcupine); handed-out snapshots do not change afterwards. Plain and -race.
+//
+// Strengthening after the coverage audit (notes/audit/audit_C18C19C20.md):
+//   * "scenarios last given": every scenarios slice handed to AddUseCaseSupport is a buffer of the harness
+//     that is overwritten after the call returned (seq and prologue: at once; concurrent parts: after the
+//     goroutines were joined, so that the harness never races with the stack); the reference keeps a private
+//     copy. The overwrite adds c20Scribble to every element, so a registry that still refers to the caller's
+//     buffer is recognised (and reported under ONE signature, c20SigAlias) while all other oracles keep
+//     judging the restored values.
+//   * one owner of the concurrent parts also removes and re-adds its entity (DeviceLocal.RemoveEntity/AddEntity).
+//   * one entity of the concurrent parts is split between two owners by actor (no removeall there): operations
+//     on different (actor, name) keys commute, so the union expectation and the prefix-state oracle hold per
+//     ownership unit.
+//   * a third of the sequential histories contain no read at all between judged steps (every 3rd-5th step),
+//     and the order of the three observations of a judged step is drawn per case.
+//   * one peer subscribes to node management and never reads: the use-case data of the last notification
+//     it received after an operation must be the registry.
 
 var (
 	c20Actors = []model.UseCaseActorType{model.UseCaseActorTypeCEM, model.UseCaseActorTypeMonitoringAppliance}
@@ -52,16 +68,19 @@ func init() {
 	rig.Register(&rig.Check{
 		ID:    "C20",
 		Floor: 200,
-		Rule: "seq: case = one generated history of 10-30 use-case operations over 3 entities ([1], [1,1], [2]) x 2 actors x 4 names (70% of removes/set-availability address an existing use case, the rest unknown ones; re-adds carry a new version/scenarios), judged after every step; " +
+		Rule: "seq: case = one generated history of 10-30 use-case operations over 3 entities ([1], [1,1], [2]) x 2 actors x 4 names (70% of removes/set-availability address an existing use case, the rest unknown ones; re-adds carry a new version/scenarios), judged after every step (a third of the cases: only after every 3rd-5th step and at the end, with no read in between; the scenarios buffer of every add is overwritten after the call); " +
 			"non-trivial if it contained an overwrite, a removal of the last use case of an actor and an operation on an unknown use case while at least two entities held use cases. " +
-			"conc: case = three per-entity histories of 6-14 operations run by three goroutines plus observers and a reading peer, hook policy (rendezvous of 2 or 3 / jitter at UseCase.afterCopy) from the case PRNG; " +
+			"conc: case = per-owner histories of 6-14 operations run by three or (one entity split by actor, 60% of the cases) four goroutines, one of which may remove/re-add its entity, plus observers, a reading peer and a subscribed peer, hook policy (rendezvous of 2 or 3 / jitter at UseCase.afterCopy) from the case PRNG; " +
 			"non-trivial if at least one snapshot was taken while a mutator was in flight and every porcupine partition was decided. " +
-			"burst: three goroutines run 600 (race: 150) unforced read-modify-write cycles each on their own entity without hooks and look at their own entity's part of the registry after every operation (GOMAXPROCS 8); non-trivial always. distinct = hash of the operation shapes (kinds and shape classes, not versions).",
+			"burst: four goroutines (two entities and the two actors of the third; one entity owner also removes/re-adds its entity) run 400 (race: 100) unforced read-modify-write cycles each without hooks (every third case with a subscribed peer) and look at their own part of the registry after every operation (GOMAXPROCS 8); non-trivial always. distinct = hash of the operation shapes (kinds and shape classes, not versions).",
 		Assumptions: []string{
 			"'equals the registry' is judged on the set of (entity address, actor, use case name -> version, sub revision, availability, scenario list) entries; the order of entries and of supports is not compared",
 			"operations on an entity that is currently not part of the device (after RemoveEntity) still address the registry; the statement does not exclude them",
 			"UseCase.afterCopy lies inside the mutex on the current tree: a rendezvous there expires (counted as window_closed) and is never judged",
 			"a porcupine verdict Unknown (timeout) makes the case inconclusive",
+			"'scenarios last given' means the values the slice had when AddUseCaseSupport was called: what the application does with its slice after the call returned must not show in the registry (signature " + c20SigAlias + ")",
+			"an entity that is modified by two goroutines is split by actor and neither of them calls RemoveAllUseCaseSupports / RemoveEntity on it: operations on different (actor, name) keys commute, so the expectation stays the union of the owners' sequential results",
+			"the use-case data a subscribed peer is sent with a notification counts as 'data a peer reads from node management': the last notification that an operation produced must carry the registry (no notification at all is not judged here)",
 		},
 		Parts: []rig.Part{
 			{Name: "seq", Run: c20Seq, Procs: 2, Cases: func(t rig.Tier) int { return map[rig.Tier]int{rig.Quick: 400, rig.Thorough: 8000}[t] }},
@@ -197,6 +216,89 @@ func c20Equal(a, b c20Ref) bool {
 type c20Snap struct {
 	M       c20Ref
 	Defects []string // structural deviations: duplicate-entry, empty-entry, duplicate-support, foreign-entry
+	Aliased []string // keys whose scenario list shows the harness's overwrite of the slice it had passed
+}
+
+// c20Scribble is added to every element of a scenarios slice once the AddUseCaseSupport call it was passed to
+// has returned (the generator only draws scenarios 1..5). c20Decode recognises such elements, notes the key
+// in Aliased and restores the value that was given, so that the other oracles keep judging everything else.
+const c20Scribble = 100
+
+// c20SigAlias is the one signature under which "the registry refers to the caller's scenarios slice" is
+// reported, whatever part, operation shape or observation path shows it.
+const c20SigAlias = "add/stored-scenarios-alias-the-callers-slice"
+
+func c20ScenBuf(o c20Op) []model.UseCaseScenarioSupportType {
+	if o.Scen == nil {
+		return nil
+	}
+	return append([]model.UseCaseScenarioSupportType{}, o.Scen...)
+}
+
+func c20ScribbleBuf(b []model.UseCaseScenarioSupportType) {
+	for i := range b {
+		b[i] += c20Scribble
+	}
+}
+
+// c20Unit is what one owner goroutine of the concurrent parts owns: an entity (A<0) or, when the entity is
+// split between two owners, one actor of it.
+type c20Unit struct{ E, A int }
+
+func (u c20Unit) owns(k c20Key) bool { return k.E == u.E && (u.A < 0 || k.A == u.A) }
+
+func (u c20Unit) String() string {
+	if u.A < 0 {
+		return c20EntName(u.E)
+	}
+	return c20EntName(u.E) + "/" + string(c20Actors[u.A])
+}
+
+func (r c20Ref) ofUnit(u c20Unit) c20Ref {
+	n := c20Ref{}
+	for k, v := range r {
+		if u.owns(k) {
+			n[k] = v
+		}
+	}
+	return n
+}
+
+// c20Units: one owner per entity; with split >= 0 that entity gets one owner per actor.
+func c20Units(split int) []c20Unit {
+	var us []c20Unit
+	for e := 0; e < c20NE; e++ {
+		if e == split {
+			for a := 0; a < c20NA; a++ {
+				us = append(us, c20Unit{e, a})
+			}
+			continue
+		}
+		us = append(us, c20Unit{e, -1})
+	}
+	return us
+}
+
+// c20GenUnit draws the next operation of the owner of unit u given the unit's part of the reference. The
+// owner of a split entity only touches its own actor and never clears the whole entity; a lifecycle owner
+// (onDev != nil, whole entity only) removes or re-adds its entity in pct percent of its operations.
+func c20GenUnit(r *rand.Rand, cur c20Ref, u c20Unit, onDev *bool, pct int) c20Op {
+	if onDev != nil && u.A < 0 && r.Intn(100) < pct {
+		o := c20Op{Kind: "addentity", K: c20Key{E: u.E}}
+		if *onDev {
+			o.Kind = "removeentity"
+		}
+		*onDev = !*onDev
+		o.Shape = c20ShapeOf(o, cur)
+		return o
+	}
+	for {
+		o := c20Gen(r, cur, u.E, false, nil)
+		if u.A >= 0 && (o.K.A != u.A || o.Kind == "removeall") {
+			continue
+		}
+		return o
+	}
 }
 
 // c20Decode turns use-case data into the set of entries the statement talks about.
@@ -250,7 +352,18 @@ func c20Decode(d *model.NodeManagementUseCaseDataType) c20Snap {
 			if _, dup := s.M[k]; dup {
 				s.Defects = append(s.Defects, "duplicate-support")
 			}
-			v := c20Val{Present: true, Avail: "nil", Scen: fmt.Sprint(c20ScenList(us.ScenarioSupport))}
+			scen, aliased := []uint{}, false
+			for _, x := range us.ScenarioSupport {
+				if x >= c20Scribble {
+					aliased = true
+					x -= c20Scribble
+				}
+				scen = append(scen, uint(x))
+			}
+			if aliased {
+				s.Aliased = append(s.Aliased, k.String())
+			}
+			v := c20Val{Present: true, Avail: "nil", Scen: fmt.Sprint(scen)}
 			if us.UseCaseVersion != nil {
 				v.Ver = string(*us.UseCaseVersion)
 			}
@@ -285,6 +398,71 @@ type c20World struct {
 	c    *rig.Ctx
 	w    *rig.World
 	ents []*spine.EntityLocal
+
+	// the scenarios buffers handed to AddUseCaseSupport are overwritten after the call: at once, or (concurrent
+	// phases, so that the harness never writes memory another goroutine may be reading) when scribbleDeferred is called
+	bmu          sync.Mutex
+	deferBufs    bool
+	bufs         [][]model.UseCaseScenarioSupportType
+	scribbledOps int64
+}
+
+// call executes one mutating or reading operation against the stack on the calling goroutine.
+func (cw *c20World) call(o c20Op) (has bool) {
+	e := cw.ents[o.K.E]
+	a, n := c20Actors[o.K.A], c20Names[o.K.N]
+	switch o.Kind {
+	case "add":
+		buf := c20ScenBuf(o)
+		e.AddUseCaseSupport(a, n, model.SpecificationVersionType(o.Ver), o.Sub, o.Avail, buf)
+		// the application reuses its buffer; the reference keeps o.Scen
+		cw.bmu.Lock()
+		if len(buf) > 0 {
+			cw.scribbledOps++
+		}
+		if cw.deferBufs {
+			cw.bufs = append(cw.bufs, buf)
+		} else {
+			c20ScribbleBuf(buf)
+		}
+		cw.bmu.Unlock()
+	case "remove":
+		e.RemoveUseCaseSupport(a, n)
+	case "setavail":
+		e.SetUseCaseAvailability(a, n, o.Avail)
+	case "removeall":
+		e.RemoveAllUseCaseSupports()
+	case "removeentity":
+		cw.w.Local.RemoveEntity(e)
+	case "addentity":
+		cw.w.Local.AddEntity(e)
+	case "has":
+		has = e.HasUseCaseSupport(a, n)
+	}
+	return has
+}
+
+// setDefer switches between overwriting at once and collecting the buffers.
+func (cw *c20World) setDefer(on bool) { cw.bmu.Lock(); cw.deferBufs = on; cw.bmu.Unlock() }
+
+// scribbleDeferred overwrites all collected buffers; call it only when no other goroutine runs.
+func (cw *c20World) scribbleDeferred() {
+	cw.bmu.Lock()
+	defer cw.bmu.Unlock()
+	for _, b := range cw.bufs {
+		c20ScribbleBuf(b)
+	}
+	cw.bufs = nil
+}
+
+// reportAlias raises the one violation for a registry that refers to a slice of the application.
+func (cw *c20World) reportAlias(src string, s c20Snap, data any, history any) {
+	if len(s.Aliased) == 0 {
+		return
+	}
+	cw.c.Violate(c20SigAlias, "%s shows scenario values that were never given: after AddUseCaseSupport returned, the harness added %d to every element of the scenarios slice IT had passed (an application reusing its buffer); "+
+		"the statement says the use case is reported with the scenarios last given.\n affected: %v\n %s: %s\n history: %v",
+		src, c20Scribble, s.Aliased, src, rig.JS(data), history)
 }
 
 func newC20World(c *rig.Ctx) *c20World {
@@ -305,26 +483,7 @@ func (cw *c20World) addPeer(i int) *rig.Peer {
 
 // do executes one operation against the stack (under a watchdog); has returns the result.
 func (cw *c20World) do(o c20Op) (has bool, panicked string) {
-	e := cw.ents[o.K.E]
-	a, n := c20Actors[o.K.A], c20Names[o.K.N]
-	panicked = eGuard(cw.c, "use case operation "+o.Kind, func() {
-		switch o.Kind {
-		case "add":
-			e.AddUseCaseSupport(a, n, model.SpecificationVersionType(o.Ver), o.Sub, o.Avail, o.Scen)
-		case "remove":
-			e.RemoveUseCaseSupport(a, n)
-		case "setavail":
-			e.SetUseCaseAvailability(a, n, o.Avail)
-		case "removeall":
-			e.RemoveAllUseCaseSupports()
-		case "removeentity":
-			cw.w.Local.RemoveEntity(e)
-		case "addentity":
-			cw.w.Local.AddEntity(e)
-		case "has":
-			has = e.HasUseCaseSupport(a, n)
-		}
-	})
+	panicked = eGuard(cw.c, "use case operation "+o.Kind, func() { has = cw.call(o) })
 	return has, panicked
 }
 
@@ -528,22 +687,80 @@ func c20Compare(src string, s c20Snap, ref c20Ref, opE int) (devs [][2]string) {
 // ---------------------------------------------------------------------------
 // sequential part
 
+// addSubscriber connects a peer that subscribes to the local node management and never reads.
+func (cw *c20World) addSubscriber(i int) (*rig.Peer, string) {
+	p := cw.addPeer(i)
+	mc := p.Subscribe(p.NM(), rig.LNM, model.FeatureTypeTypeNodeManagement)
+	if res := rig.Classify(p.Tap.Take(), mc); res.Success != 1 || res.Errors != 0 {
+		return p, "the subscription to node management was not acknowledged: " + res.String()
+	}
+	return p, ""
+}
+
+// c20LastNotify returns the use-case data of the last filter-less use-case notification among outs
+// (n = number of use-case notifications; a notification with filters does not state the whole registry
+// and is not judged).
+func c20LastNotify(outs []model.DatagramType) (d *model.NodeManagementUseCaseDataType, n int) {
+	for _, o := range outs {
+		if o.Header.CmdClassifier == nil || *o.Header.CmdClassifier != model.CmdClassifierTypeNotify {
+			continue
+		}
+		for _, cmd := range o.Payload.Cmd {
+			isUC := cmd.NodeManagementUseCaseData != nil || (cmd.Function != nil && *cmd.Function == model.FunctionTypeNodeManagementUseCaseData)
+			if !isUC {
+				continue
+			}
+			n++
+			if len(cmd.Filter) > 0 {
+				d = nil
+				continue
+			}
+			d = cmd.NodeManagementUseCaseData
+			if d == nil {
+				d = &model.NodeManagementUseCaseDataType{}
+			}
+		}
+	}
+	return d, n
+}
+
 func c20Seq(c *rig.Ctx) {
 	cw := newC20World(c)
 	defer cw.w.Close()
 	p := cw.addPeer(0)
+	sub, problem := cw.addSubscriber(1)
+	if problem != "" {
+		c.Inconclusive("%s", problem)
+		return
+	}
 	r := c.Rand
 	ref := c20Ref{}
 	onDevice := []bool{true, true, true}
 	n := 10 + r.Intn(21)
+	// a third of the histories: no read of any kind between the judged steps
+	every := 1
+	if r.Intn(3) == 0 {
+		every = 3 + r.Intn(3)
+	}
+	order := r.Perm(3) // order of the three observations of a judged step
 	var hist, shapes []string
 	seenShape := map[string]bool{}
 	twoPopulated := false
+	broken := false // a deviation other than the aliased scenarios slice ends the case
 	fail := func(o c20Op, dev, detail string) {
-		c.Violate(o.Shape+"/"+dev, "after step %d: %s\n %s\n reference registry: %s\n history:\n  %s", len(hist), o, detail, ref, strings.Join(hist, "\n  "))
+		broken = true
+		pre := o.Shape
+		if every > 1 {
+			pre = "sparse" // the deviating operation may be any since the last judged step
+		}
+		c.Violate(pre+"/"+dev, "after step %d: %s (observations every %d steps, order %v)\n %s\n reference registry: %s\n history:\n  %s", len(hist), o, every, order, detail, ref, strings.Join(hist, "\n  "))
 	}
+	var d, lc *model.NodeManagementUseCaseDataType
 	for i := 0; i < n; i++ {
 		o := c20Gen(r, ref, -1, true, onDevice)
+		for every > 1 && o.Kind == "has" {
+			o = c20Gen(r, ref, -1, true, onDevice)
+		}
 		hist = append(hist, o.String())
 		shapes = append(shapes, o.Shape)
 		seenShape[o.Shape] = true
@@ -577,49 +794,84 @@ func c20Seq(c *rig.Ctx) {
 			twoPopulated = true
 		}
 		opE := o.K.E
-		// (a) HasUseCaseSupport for EVERY key of the domain
-		for _, k := range c20AllKeys() {
-			_, in := ref[k]
-			got := cw.ents[k.E].HasUseCaseSupport(c20Actors[k.A], c20Names[k.N])
-			c.Events(1)
-			if got != in {
-				where := ""
-				if k.E != opE {
-					where = "-of-other-entity"
+		// what the subscribed peer was sent because of this operation (looking at the tap is no read of the
+		// stack): the last use-case notification must carry the registry
+		if nd, cnt := c20LastNotify(sub.Tap.Take()); cnt > 0 {
+			c.Count("notifications_seen", int64(cnt))
+			if nd != nil {
+				c.Events(1)
+				sn := c20Decode(nd)
+				cw.reportAlias("notification", sn, nd, hist)
+				for _, dv := range c20Compare("notify", sn, ref, opE) {
+					c.Violate(o.Shape+"/"+dv[0], "after step %d: %s\n %s\n the last use-case notification a subscribed peer received for this operation: %s\n reference registry: %s\n history:\n  %s", len(hist), o, dv[1], rig.JS(nd), ref, strings.Join(hist, "\n  "))
+					broken = true
 				}
-				dev := "has-true-for-absent"
-				if in {
-					dev = "has-false-for-present"
-				}
-				fail(o, dev+where, fmt.Sprintf("HasUseCaseSupport(%s) = %v, reference says %v", k, got, in))
 			}
 		}
-		// (b) what a peer reads
-		d, _, _, problem := cw.peerRead(p)
-		if problem != "" {
-			fail(o, "read-unanswered", problem)
-		} else {
-			c.Events(int64(len(ref)) + 1)
-			for _, dv := range c20Compare("reply", c20Decode(d), ref, opE) {
-				fail(o, dv[0], dv[1]+"\n reply: "+rig.JS(d))
+		if judged := every == 1 || (i+1)%every == 0 || i == n-1; judged && !broken {
+			c.Count("judged_steps", 1)
+			for _, which := range order {
+				switch which {
+				case 0:
+					// (a) HasUseCaseSupport for EVERY key of the domain
+					for _, k := range c20AllKeys() {
+						_, in := ref[k]
+						got := cw.ents[k.E].HasUseCaseSupport(c20Actors[k.A], c20Names[k.N])
+						c.Events(1)
+						if got != in {
+							where := ""
+							if k.E != opE {
+								where = "-of-other-entity"
+							}
+							dev := "has-true-for-absent"
+							if in {
+								dev = "has-false-for-present"
+							}
+							fail(o, dev+where, fmt.Sprintf("HasUseCaseSupport(%s) = %v, reference says %v", k, got, in))
+						}
+					}
+				case 1:
+					// (b) what a peer reads
+					var problem string
+					d, _, _, problem = cw.peerRead(p)
+					if problem != "" {
+						fail(o, "read-unanswered", problem)
+					} else {
+						c.Events(int64(len(ref)) + 1)
+						sn := c20Decode(d)
+						cw.reportAlias("reply", sn, d, hist)
+						for _, dv := range c20Compare("reply", sn, ref, opE) {
+							fail(o, dv[0], dv[1]+"\n reply: "+rig.JS(d))
+						}
+					}
+				case 2:
+					// (c) the stored function data
+					lc = cw.localCopy()
+					c.Events(1)
+					sn := c20Decode(lc)
+					cw.reportAlias("datacopy", sn, lc, hist)
+					for _, dv := range c20Compare("datacopy", sn, ref, opE) {
+						fail(o, dv[0], dv[1]+"\n data: "+rig.JS(lc))
+					}
+				}
 			}
 		}
-		// (c) the stored function data
-		lc := cw.localCopy()
-		c.Events(1)
-		for _, dv := range c20Compare("datacopy", c20Decode(lc), ref, opE) {
-			fail(o, dv[0], dv[1]+"\n data: "+rig.JS(lc))
-		}
-		if c.Failed() {
-			c.Witness(map[string]any{"history": hist, "reference": ref.String(), "reply": rig.JS(d), "datacopy": rig.JS(lc)})
+		if broken {
 			break
 		}
 	}
-	c.Shape(eHash(strings.Join(shapes, ",")))
+	if c.Failed() {
+		c.Witness(map[string]any{"history": hist, "reference": ref.String(), "reply": rig.JS(d), "datacopy": rig.JS(lc), "judged_every": every, "order": order})
+	}
+	if every > 1 {
+		c.Count("sparse_histories", 1)
+	}
+	c.Count("adds_with_overwritten_scenarios_buffer", cw.scribbledOps)
+	c.Shape(eHash(strings.Join(shapes, ",") + fmt.Sprint(every, order)))
 	c.NonTrivial(seenShape["add-existing-name"] && seenShape["remove-last-of-actor"] && twoPopulated &&
 		(seenShape["remove-unknown"] || seenShape["setavail-unknown"]))
 	c.Count("seq_steps", int64(len(hist)))
-	c.Sample(map[string]any{"history": hist, "final_registry": ref.String()})
+	c.Sample(map[string]any{"history": hist, "final_registry": ref.String(), "judged_every": every, "order": order})
 }
 
 // ---------------------------------------------------------------------------
@@ -673,8 +925,30 @@ func c20Conc(c *rig.Ctx) {
 	for i := 0; i < readers; i++ {
 		peers = append(peers, cw.addPeer(i))
 	}
+	// a peer that subscribes to node management and never reads
+	sub, problem := cw.addSubscriber(readers)
+	if problem != "" {
+		c.Inconclusive("%s", problem)
+		return
+	}
 
-	// sequential prologue so that removals and overwrites have something to work on
+	// ownership units: one owner per entity; in 60% of the cases one entity is split between two owners by
+	// actor. One owner of a whole entity may also remove and re-add its entity (50% of the cases).
+	split := -1
+	if r.Intn(5) < 3 {
+		split = r.Intn(c20NE)
+	}
+	units := c20Units(split)
+	nu := len(units)
+	lifecycle := -1
+	if r.Intn(2) == 0 {
+		for lifecycle < 0 || units[lifecycle].A >= 0 {
+			lifecycle = r.Intn(nu)
+		}
+	}
+
+	// sequential prologue so that removals and overwrites have something to work on (its buffers are
+	// overwritten at once: nothing else runs yet)
 	ref0 := c20Ref{}
 	var prologue []string
 	for i, n := 0, r.Intn(7); i < n; i++ {
@@ -687,21 +961,31 @@ func c20Conc(c *rig.Ctx) {
 		ref0.apply(o)
 		prologue = append(prologue, o.String())
 	}
+	cw.setDefer(true)
 
-	// per-entity histories and their prefix states
-	lists := make([][]c20Op, c20NE)
-	states := make([][]c20Ref, c20NE) // states[e][k] = entity e's part of the registry after its first k mutators
+	// per-owner histories and their prefix states
+	lists := make([][]c20Op, nu)
+	states := make([][]c20Ref, nu) // states[u][k] = unit u's part of the registry after its first k mutators
 	var shapes []string
-	for e := 0; e < c20NE; e++ {
-		cur := ref0.ofEntity(e)
-		states[e] = append(states[e], cur.clone())
+	entityOps := 0
+	for u, un := range units {
+		cur := ref0.ofUnit(un)
+		states[u] = append(states[u], cur.clone())
+		var onDev *bool
+		if u == lifecycle {
+			onDev = new(bool)
+			*onDev = true
+		}
 		for i, n := 0, 6+r.Intn(9); i < n; i++ {
-			o := c20Gen(r, cur, e, false, nil)
-			lists[e] = append(lists[e], o)
+			o := c20GenUnit(r, cur, un, onDev, 18)
+			lists[u] = append(lists[u], o)
 			shapes = append(shapes, o.Shape)
+			if o.Kind == "removeentity" || o.Kind == "addentity" {
+				entityOps++
+			}
 			if o.Kind != "has" {
 				cur.apply(o)
-				states[e] = append(states[e], cur.clone())
+				states[u] = append(states[u], cur.clone())
 			}
 		}
 		shapes = append(shapes, "|")
@@ -723,7 +1007,7 @@ func c20Conc(c *rig.Ctx) {
 	if strings.Contains(policy, "jitter") {
 		h.Jitter("UseCase.afterCopy", r.Int63(), 300*time.Microsecond)
 	}
-	shapes = append(shapes, policy, fmt.Sprint(readers))
+	shapes = append(shapes, policy, fmt.Sprint(readers), fmt.Sprint("split", split, "lifecycle", lifecycle))
 
 	var mu sync.Mutex
 	var recs []c20Rec
@@ -738,40 +1022,41 @@ func c20Conc(c *rig.Ctx) {
 	var wg, rg sync.WaitGroup
 	start := make(chan struct{})
 	type mutRec struct{ call, ret int64 }
-	mutLog := make([][]mutRec, c20NE) // per entity: interval of its k-th mutator (written by its owner only, read after join)
+	mutLog := make([][]mutRec, nu) // per unit: interval of its k-th mutator (written by its owner only, read after join)
 
-	for e := 0; e < c20NE; e++ {
+	for u := range units {
 		wg.Add(1)
-		go func(e int) {
+		go func(u int) {
 			defer wg.Done()
-			h.Role(fmt.Sprint("owner", e))
+			role := fmt.Sprint("owner", u)
+			h.Role(role)
 			<-start
-			for _, o := range lists[e] {
+			for _, o := range lists[u] {
 				if o.Kind != "has" {
 					atomic.AddInt64(&inflight, 1)
 				}
 				call := rig.Seq()
 				// the role of the goroutine that enters the stack (eGuard runs the call on its own goroutine)
-				has, pan := cw.doAs(h, fmt.Sprint("owner", e), o)
+				has, pan := cw.doAs(h, role, o)
 				ret := rig.Seq()
 				if o.Kind != "has" {
 					atomic.AddInt64(&inflight, -1)
-					mutLog[e] = append(mutLog[e], mutRec{call, ret})
+					mutLog[u] = append(mutLog[u], mutRec{call, ret})
 				}
 				if pan != "" {
 					c.Violate("conc/call-panics/"+o.Kind, "%s: %s", o, pan)
 				}
-				add(c20Rec{Client: e, Op: o, Has: has, Call: call, Ret: ret})
+				add(c20Rec{Client: u, Op: o, Has: has, Call: call, Ret: ret})
 				if o.Kind != "has" {
-					// the owner looks at the registry between its own operations: its entity's part must be
+					// the owner looks at the registry between its own operations: its part must be
 					// exactly its own sequential state (nobody else writes there)
 					c1 := rig.Seq()
 					sn := c20Decode(cw.localCopy())
 					c2 := rig.Seq()
-					add(c20Rec{Client: e, Snap: &sn, Src: "owner-datacopy", Call: c1, Ret: c2})
+					add(c20Rec{Client: u, Snap: &sn, Src: "owner-datacopy", Call: c1, Ret: c2})
 				}
 			}
-		}(e)
+		}(u)
 	}
 	// observers: HasUseCaseSupport on random keys and decoded DataCopy snapshots
 	nObs := 1 + r.Intn(2)
@@ -850,23 +1135,43 @@ func c20Conc(c *rig.Ctx) {
 	}
 	c.Count("hook_hits UseCase.afterCopy", int64(h.Hits("UseCase.afterCopy")))
 	c.Seen("hook_orderings", eHash(strings.Join(h.Trace(), ",")))
-
-	render := func() map[string]any {
-		var per []any
-		for e := 0; e < c20NE; e++ {
-			var l []string
-			for _, o := range lists[e] {
-				l = append(l, o.String())
-			}
-			per = append(per, l)
-		}
-		return map[string]any{"prologue": prologue, "per_entity_histories": per, "hook_policy": policy, "readers": readers, "observers": nObs}
+	c.Count("entity_lifecycle_operations", int64(entityOps))
+	if split >= 0 {
+		c.Count("cases_with_split_entity", 1)
 	}
 
-	// (1) final registry = union of the per-entity sequential results
+	render := func() map[string]any {
+		per := map[string]any{}
+		for u := range units {
+			var l []string
+			for _, o := range lists[u] {
+				l = append(l, o.String())
+			}
+			per["owner of "+units[u].String()] = l
+		}
+		return map[string]any{"prologue": prologue, "per_owner_histories": per, "hook_policy": policy, "readers": readers, "observers": nObs,
+			"lifecycle_owner": lifecycle}
+	}
+
+	// (4) snapshots handed out earlier did not change (judged BEFORE the harness overwrites its scenarios
+	// buffers: what an aliased buffer does to them is reported under c20SigAlias by the final comparison)
+	for _, kp := range kept {
+		c.Events(1)
+		if now := rig.JS(kp.d); now != kp.fp {
+			c.Violate("conc/handed-out-snapshot-changed", "a DataCopy result changed after it was handed out:\n then: %s\n now:  %s", kp.fp, now)
+		}
+	}
+	c.Count("retained_snapshots", int64(len(kept)))
+
+	// the application reuses the buffers it had passed to AddUseCaseSupport (all goroutines are joined)
+	cw.scribbleDeferred()
+	cw.setDefer(false)
+	c.Count("adds_with_overwritten_scenarios_buffer", cw.scribbledOps)
+
+	// (1) final registry = union of the per-owner sequential results
 	final := c20Ref{}
-	for e := 0; e < c20NE; e++ {
-		for k, v := range states[e][len(states[e])-1] {
+	for u := range units {
+		for k, v := range states[u][len(states[u])-1] {
 			final[k] = v
 		}
 	}
@@ -874,19 +1179,41 @@ func c20Conc(c *rig.Ctx) {
 		_, in := final[k]
 		c.Events(1)
 		if got := cw.ents[k.E].HasUseCaseSupport(c20Actors[k.A], c20Names[k.N]); got != in {
-			c.Violate("conc/final-has-differs-from-union", "HasUseCaseSupport(%s) = %v after all goroutines finished, union of the per-entity results says %v\n expected registry: %s", k, got, in, final)
+			c.Violate("conc/final-has-differs-from-union", "HasUseCaseSupport(%s) = %v after all goroutines finished, union of the per-owner results says %v\n expected registry: %s", k, got, in, final)
 		}
 	}
 	if d, _, _, problem := cw.peerRead(peers[0]); problem != "" {
 		c.Violate("conc/read-unanswered", "%s", problem)
 	} else {
 		c.Events(int64(len(final)) + 1)
-		for _, dv := range c20Compare("final-reply", c20Decode(d), final, -1) {
-			c.Violate("conc/"+dv[0]+"-vs-union", "%s\n expected registry (union of per-entity results): %s\n reply: %s", dv[1], final, rig.JS(d))
+		sn := c20Decode(d)
+		cw.reportAlias("final reply", sn, d, render())
+		for _, dv := range c20Compare("final-reply", sn, final, -1) {
+			c.Violate("conc/"+dv[0]+"-vs-union", "%s\n expected registry (union of per-owner results): %s\n reply: %s", dv[1], final, rig.JS(d))
+		}
+	}
+	{
+		lc := cw.localCopy()
+		c.Events(1)
+		sn := c20Decode(lc)
+		cw.reportAlias("final datacopy", sn, lc, render())
+		for _, dv := range c20Compare("final-datacopy", sn, final, -1) {
+			c.Violate("conc/"+dv[0]+"-vs-union", "%s\n expected registry (union of per-owner results): %s\n data: %s", dv[1], final, rig.JS(lc))
+		}
+	}
+	// the subscribed peer: the last use-case notification it was sent carries the final registry (the
+	// notifications were decoded when they were sent, i.e. before the buffers were overwritten)
+	if nd, cnt := c20LastNotify(sub.Tap.Take()); cnt > 0 && nd != nil {
+		c.Count("notifications_seen", int64(cnt))
+		c.Events(1)
+		sn := c20Decode(nd)
+		cw.reportAlias("last notification", sn, nd, render())
+		for _, dv := range c20Compare("last-notify", sn, final, -1) {
+			c.Violate("conc/"+dv[0]+"-vs-union", "%s\n the last of %d use-case notifications the subscribed peer received: %s\n expected registry (union of per-owner results): %s", dv[1], cnt, rig.JS(nd), final)
 		}
 	}
 
-	// (2) every snapshot is, per entity, a prefix state allowed by its interval
+	// (2) every snapshot is, per ownership unit, a prefix state allowed by its interval
 	snaps := 0
 	for _, x := range recs {
 		if x.Snap == nil {
@@ -897,9 +1224,9 @@ func c20Conc(c *rig.Ctx) {
 		for _, d := range x.Snap.Defects {
 			c.Violate("conc/snapshot-"+d, "%s snapshot taken in [%d,%d] has a %s: %s", x.Src, x.Call, x.Ret, d, x.Snap.M)
 		}
-		for e := 0; e < c20NE; e++ {
+		for u, un := range units {
 			lo, hi := 0, 0
-			for _, m := range mutLog[e] {
+			for _, m := range mutLog[u] {
 				if m.ret < x.Call {
 					lo++
 				}
@@ -907,10 +1234,10 @@ func c20Conc(c *rig.Ctx) {
 					hi++
 				}
 			}
-			part := x.Snap.M.ofEntity(e)
+			part := x.Snap.M.ofUnit(un)
 			ok, anyPrefix := false, -1
-			for k := range states[e] {
-				if c20Equal(part, states[e][k]) {
+			for k := range states[u] {
+				if c20Equal(part, states[u][k]) {
 					if k >= lo && k <= hi {
 						ok = true
 					}
@@ -922,8 +1249,11 @@ func c20Conc(c *rig.Ctx) {
 				if anyPrefix >= 0 {
 					dev = "snapshot-stale-or-early-prefix-state"
 				}
-				c.Violate("conc/"+dev, "%s snapshot [%d,%d]: entity %s part %s is not one of the states after %d..%d of its mutators (matches prefix %d)\n states: %v",
-					x.Src, x.Call, x.Ret, c20EntName(e), part, lo, hi, anyPrefix, states[e])
+				if un.A >= 0 {
+					dev += "-of-split-entity"
+				}
+				c.Violate("conc/"+dev, "%s snapshot [%d,%d]: the part of owner %s, %s, is not one of the states after %d..%d of its mutators (matches prefix %d)\n states: %v",
+					x.Src, x.Call, x.Ret, un, part, lo, hi, anyPrefix, states[u])
 			}
 		}
 	}
@@ -946,9 +1276,9 @@ func c20Conc(c *rig.Ctx) {
 				}
 				perClientSnaps[x.Client]++
 				ops = append(ops, porcupine.Operation{ClientId: x.Client, Input: c20PIn{Kind: "read"}, Output: x.Snap.M[k], Call: x.Call, Return: x.Ret})
-			case x.Op.Kind == "removeall" && x.Op.K.E == k.E:
+			case (x.Op.Kind == "removeall" || x.Op.Kind == "removeentity") && x.Op.K.E == k.E:
 				ops = append(ops, porcupine.Operation{ClientId: x.Client, Input: c20PIn{Kind: "remove"}, Call: x.Call, Return: x.Ret})
-			case x.Op.Kind == "removeall" || x.Op.K != k:
+			case x.Op.Kind == "removeall" || x.Op.Kind == "removeentity" || x.Op.Kind == "addentity" || x.Op.K != k:
 			case x.Op.Kind == "add":
 				ops = append(ops, porcupine.Operation{ClientId: x.Client, Input: c20PIn{Kind: "add", Val: c20ValOf(x.Op)}, Call: x.Call, Return: x.Ret})
 			case x.Op.Kind == "remove":
@@ -977,15 +1307,6 @@ func c20Conc(c *rig.Ctx) {
 		c.Inconclusive("porcupine could not decide %d partitions within 20s", undecided)
 	}
 
-	// (4) snapshots handed out earlier did not change
-	for _, kp := range kept {
-		c.Events(1)
-		if now := rig.JS(kp.d); now != kp.fp {
-			c.Violate("conc/handed-out-snapshot-changed", "a DataCopy result changed after it was handed out:\n then: %s\n now:  %s", kp.fp, now)
-		}
-	}
-	c.Count("retained_snapshots", int64(len(kept)))
-
 	if c.Failed() {
 		c.Witness(render())
 	}
@@ -997,23 +1318,10 @@ func c20Conc(c *rig.Ctx) {
 
 // doAs is do with the hook role of the executing goroutine set (eGuard runs the call on its own goroutine).
 func (cw *c20World) doAs(h *rig.Hooks, role string, o c20Op) (bool, string) {
-	e := cw.ents[o.K.E]
-	a, n := c20Actors[o.K.A], c20Names[o.K.N]
 	var has bool
 	pan := eGuard(cw.c, "use case operation "+o.Kind, func() {
 		h.Role(role)
-		switch o.Kind {
-		case "add":
-			e.AddUseCaseSupport(a, n, model.SpecificationVersionType(o.Ver), o.Sub, o.Avail, o.Scen)
-		case "remove":
-			e.RemoveUseCaseSupport(a, n)
-		case "setavail":
-			e.SetUseCaseAvailability(a, n, o.Avail)
-		case "removeall":
-			e.RemoveAllUseCaseSupports()
-		case "has":
-			has = e.HasUseCaseSupport(a, n)
-		}
+		has = cw.call(o)
 	})
 	return has, pan
 }
@@ -1022,39 +1330,62 @@ func (cw *c20World) doAs(h *rig.Hooks, role string, o c20Op) (bool, string) {
 // burst: many unforced concurrent read-modify-write cycles on disjoint entities
 
 // c20Burst aims at windows that no hook point opens (e.g. a store that slipped out of the critical
-// section): three owners hammer their own entities; after EVERY operation the owner compares its entity's
-// part of the stored data with its own sequential state, and at the end the registry must be the union.
+// section, or a critical section that no longer covers all writers of one entity): two owners hammer their
+// own entities (one of them also removes and re-adds its entity now and then), two more share the third
+// entity split by actor; after EVERY operation the owner compares its part of the stored data with its own
+// sequential state, and at the end the registry must be the union.
 func c20Burst(c *rig.Ctx) {
 	cw := newC20World(c)
 	defer cw.w.Close()
 	p := cw.addPeer(0)
+	// every third case: a subscribed peer (each store then also encodes a notification, which slows the cycles down)
+	var sub *rig.Peer
+	if c.Index%3 == 0 {
+		var problem string
+		if sub, problem = cw.addSubscriber(1); problem != "" {
+			c.Inconclusive("%s", problem)
+			return
+		}
+	}
 	r := c.Rand
-	n := 600
+	n := 400
 	if c.Race {
-		n = 150
+		n = 100
 	}
 	if c.Thorough() {
 		n *= 2
 	}
-	lists := make([][]c20Op, c20NE)
-	states := make([][]c20Ref, c20NE)
+	split := r.Intn(c20NE)
+	units := c20Units(split)
+	nu := len(units)
+	lifecycle := r.Intn(nu)
+	for units[lifecycle].A >= 0 {
+		lifecycle = r.Intn(nu)
+	}
+	lists := make([][]c20Op, nu)
+	states := make([][]c20Ref, nu)
 	kinds := map[string]int{}
-	for e := 0; e < c20NE; e++ {
+	for u, un := range units {
 		cur := c20Ref{}
-		states[e] = append(states[e], cur.clone())
-		for len(lists[e]) < n {
-			o := c20Gen(r, cur, e, false, nil)
+		states[u] = append(states[u], cur.clone())
+		var onDev *bool
+		if u == lifecycle {
+			onDev = new(bool)
+			*onDev = true
+		}
+		for len(lists[u]) < n {
+			o := c20GenUnit(r, cur, un, onDev, 2)
 			if o.Kind == "has" || (o.Kind == "removeall" && r.Intn(4) > 0) {
 				continue
 			}
-			lists[e] = append(lists[e], o)
+			lists[u] = append(lists[u], o)
 			kinds[o.Shape]++
 			cur.apply(o)
-			states[e] = append(states[e], cur.clone())
+			states[u] = append(states[u], cur.clone())
 		}
 	}
 	type deviation struct {
-		e, k      int
+		u, k      int
 		op        c20Op
 		want, got string
 	}
@@ -1063,42 +1394,35 @@ func c20Burst(c *rig.Ctx) {
 	var wg sync.WaitGroup
 	start := make(chan struct{})
 	var judged int64
-	for e := 0; e < c20NE; e++ {
+	cw.setDefer(true)
+	for u := range units {
 		wg.Add(1)
-		go func(e int) {
+		go func(u int) {
 			defer wg.Done()
 			<-start
 			pan := eGuard(c, "burst of use case operations", func() {
-				ent := cw.ents[e]
 				bad := 0
-				for k, o := range lists[e] {
-					a, nm := c20Actors[o.K.A], c20Names[o.K.N]
-					switch o.Kind {
-					case "add":
-						ent.AddUseCaseSupport(a, nm, model.SpecificationVersionType(o.Ver), o.Sub, o.Avail, o.Scen)
-					case "remove":
-						ent.RemoveUseCaseSupport(a, nm)
-					case "setavail":
-						ent.SetUseCaseAvailability(a, nm, o.Avail)
-					case "removeall":
-						ent.RemoveAllUseCaseSupports()
-					}
-					part := c20Decode(cw.localCopy()).M.ofEntity(e)
+				for k, o := range lists[u] {
+					cw.call(o)
+					part := c20Decode(cw.localCopy()).M.ofUnit(units[u])
 					atomic.AddInt64(&judged, 1)
-					if !c20Equal(part, states[e][k+1]) {
+					if !c20Equal(part, states[u][k+1]) {
 						mu.Lock()
-						devs = append(devs, deviation{e, k, o, states[e][k+1].String(), part.String()})
+						devs = append(devs, deviation{u, k, o, states[u][k+1].String(), part.String()})
 						mu.Unlock()
 						if bad++; bad >= 3 {
 							return
 						}
+					}
+					if k%128 == 127 {
+						c.Progress()
 					}
 				}
 			})
 			if pan != "" {
 				c.Violate("burst/call-panics", "%s", pan)
 			}
-		}(e)
+		}(u)
 	}
 	close(start)
 	wg.Wait()
@@ -1108,27 +1432,20 @@ func c20Burst(c *rig.Ctx) {
 		if i >= 3 {
 			break
 		}
-		c.Violate("burst/own-entity-differs-from-own-sequential-state", "entity %s after its operation #%d (%s), while the other two entities were modified concurrently:\n want %s\n got  %s", c20EntName(d.e), d.k, d.op, d.want, d.got)
+		sig := "burst/own-entity-differs-from-own-sequential-state"
+		if units[d.u].A >= 0 {
+			sig = "burst/own-actor-of-shared-entity-differs-from-own-sequential-state"
+		}
+		c.Violate(sig, "owner of %s after its operation #%d (%s), while the other owners (units %v) modified their parts concurrently:\n want %s\n got  %s", units[d.u], d.k, d.op, units, d.want, d.got)
 	}
+	// the application reuses the buffers it had passed to AddUseCaseSupport (all goroutines are joined)
+	cw.scribbleDeferred()
+	cw.setDefer(false)
+	c.Count("adds_with_overwritten_scenarios_buffer", cw.scribbledOps)
 	final := c20Ref{}
-	for e := 0; e < c20NE; e++ {
-		for k, v := range states[e][len(states[e])-1] {
+	for u := range units {
+		for k, v := range states[u][len(states[u])-1] {
 			final[k] = v
-		}
-	}
-	for _, k := range c20AllKeys() {
-		_, in := final[k]
-		c.Events(1)
-		if got := cw.ents[k.E].HasUseCaseSupport(c20Actors[k.A], c20Names[k.N]); got != in {
-			c.Violate("burst/final-has-differs-from-union", "HasUseCaseSupport(%s) = %v after all goroutines finished, union of the per-entity results says %v", k, got, in)
-		}
-	}
-	if d, _, _, problem := cw.peerRead(p); problem != "" {
-		c.Violate("burst/read-unanswered", "%s", problem)
-	} else {
-		c.Events(int64(len(final)) + 1)
-		for _, dv := range c20Compare("final-reply", c20Decode(d), final, -1) {
-			c.Violate("burst/"+dv[0]+"-vs-union", "%s\n expected registry (union of per-entity results): %s\n reply: %s", dv[1], final, rig.JS(d))
 		}
 	}
 	var ks []string
@@ -1136,10 +1453,49 @@ func c20Burst(c *rig.Ctx) {
 		ks = append(ks, fmt.Sprintf("%s:%d", k, v))
 	}
 	sort.Strings(ks)
-	if c.Failed() {
-		c.Witness(map[string]any{"operations_per_entity": n, "deviations": len(devs), "shapes": ks})
+	setup := map[string]any{"operations_per_owner": n, "owners": fmt.Sprint(units), "lifecycle_owner": units[lifecycle].String(), "shapes": ks}
+	for _, k := range c20AllKeys() {
+		_, in := final[k]
+		c.Events(1)
+		if got := cw.ents[k.E].HasUseCaseSupport(c20Actors[k.A], c20Names[k.N]); got != in {
+			c.Violate("burst/final-has-differs-from-union", "HasUseCaseSupport(%s) = %v after all goroutines finished, union of the per-owner results says %v", k, got, in)
+		}
 	}
-	c.Shape(eHash(strings.Join(ks, ",")))
+	if d, _, _, problem := cw.peerRead(p); problem != "" {
+		c.Violate("burst/read-unanswered", "%s", problem)
+	} else {
+		c.Events(int64(len(final)) + 1)
+		sn := c20Decode(d)
+		cw.reportAlias("final reply", sn, d, setup)
+		for _, dv := range c20Compare("final-reply", sn, final, -1) {
+			c.Violate("burst/"+dv[0]+"-vs-union", "%s\n expected registry (union of per-owner results): %s\n reply: %s", dv[1], final, rig.JS(d))
+		}
+	}
+	{
+		lc := cw.localCopy()
+		c.Events(1)
+		sn := c20Decode(lc)
+		cw.reportAlias("final datacopy", sn, lc, setup)
+		for _, dv := range c20Compare("final-datacopy", sn, final, -1) {
+			c.Violate("burst/"+dv[0]+"-vs-union", "%s\n expected registry (union of per-owner results): %s\n data: %s", dv[1], final, rig.JS(lc))
+		}
+	}
+	if sub == nil {
+	} else if nd, cnt := c20LastNotify(sub.Tap.Take()); cnt > 0 && nd != nil {
+		c.Count("notifications_seen", int64(cnt))
+		c.Events(1)
+		sn := c20Decode(nd)
+		cw.reportAlias("last notification", sn, nd, setup)
+		for _, dv := range c20Compare("last-notify", sn, final, -1) {
+			c.Violate("burst/"+dv[0]+"-vs-union", "%s\n the last of %d use-case notifications the subscribed peer received: %s\n expected registry (union of per-owner results): %s", dv[1], cnt, rig.JS(nd), final)
+		}
+	}
+	if c.Failed() {
+		setup["deviations"] = len(devs)
+		c.Witness(setup)
+	}
+	c.Shape(eHash(strings.Join(ks, ",") + fmt.Sprint(units, lifecycle)))
 	c.NonTrivial(true)
-	c.Sample(map[string]any{"operations_per_entity": n, "shapes": ks, "final_registry": final.String()})
+	setup["final_registry"] = final.String()
+	c.Sample(setup)
 }
